@@ -1,6 +1,6 @@
 (* C18 driver.  stdin lines:
      W <fsz> <init_len> <nchunks> <len>...     -> per prefix j:  "P j <file length> <nframes>"  then E
-     G <sz> <nobs> { <content length> }        greedy long-lived reader of a file whose content at
+     G <fx 0|1> <sz> <nobs> { <content length> }        greedy long-lived reader of a file whose content at
                                                observation i is the first <content length> bytes of the
                                                stream 0,1,2,...(mod 251): prints per observation
                                                "G i <from sample> <got samples> <byte offset of the first byte returned>"
@@ -38,12 +38,14 @@ let () =
           print_string "E\n"
       | "G" :: rest ->
           let w = Array.of_list (List.map int_of_string rest) in
+          let fx = w.(0) = 1 in
+          let w = Array.sub w 1 (Array.length w - 1) in
           let sz = w.(0) and nobs = w.(1) in
           let r = ref { rpos = O; roff = O } in
           for i = 0 to nobs - 1 do
             let c = stream 0 w.(2 + i) in
             let from = int_of_nat !r.rpos in
-            let (got, r') = rd_read (nat_of_int sz) c !r !r.rpos (nat_of_int 4000) in
+            let (got, r') = rd_read fx (nat_of_int sz) c !r !r.rpos (nat_of_int 4000) in
             let first = match got with [] -> -1 | b :: _ -> int_of_n b in
             Printf.printf "G %d %d %d %d\n" i from (List.length got / sz) first;
             r := r'
